@@ -261,6 +261,9 @@ func builtinArraySlice(call FunctionCall) Value {
 		from := arrayIndexToString(index + start)
 		if thisObject.hasProperty(from) {
 			sliceValueArray[index] = thisObject.get(from)
+		} else {
+			// A hole stays a hole (ECMA 262 15.4.4.10 step 10.c).
+			sliceValueArray[index] = emptyValue
 		}
 	}
 
